@@ -4,7 +4,8 @@ single-fault MUTATORS.  Everything random comes from the Rng passed in.
 
 Types (python side): 'bool' 'int' 'long' 'float' 'double' 'char' 'string',
 ('rec', R), ('enum', E), ('fn', ((cst, ty), ...), rcst, rty), ('arr', ecst, ety); cst in 'd','c','v'
-(as written: default / let / var).
+(as written: default / let / var).  D11: ('tup', ((cst, ty), ...)) tuples, ('arrn', n, ecst, ety) arrays of n >= 2
+dimensions, ('rng', n) ranges, ('slc', n, ecst, ety) slices (the last three only as types of local bindings).
 """
 
 SCAL = ['bool', 'int', 'long', 'float', 'double', 'char', 'string']
@@ -53,7 +54,7 @@ class Prog:
         self.decls, self.funcs = decls, funcs
 
 
-ATOMIC = {'b', 'i', 'l', 'f', 'd', 'c', 's', 'id', 'call', 'sup', 'seq', 'attr', 'deref', 'ev'}
+ATOMIC = {'b', 'i', 'l', 'f', 'd', 'c', 's', 'id', 'call', 'sup', 'seq', 'attr', 'deref', 'ev', 'proj', 'slice', 'range'}
 
 
 def atom(e):
@@ -82,11 +83,23 @@ def resolved(t):
         return ('fn', tuple((norm_c(c), resolved(x)) for c, x in t[1]), norm_c(t[2]), resolved(t[3]))
     if t[0] == 'arr':
         return ('arr', norm_v(t[1]), resolved(t[2]))
+    if t[0] == 'arrn':
+        return ('arrn', t[1], norm_v(t[2]), resolved(t[3]))
+    if t[0] == 'slc':
+        return ('slc', t[1], norm_v(t[2]), resolved(t[3]))
+    if t[0] == 'tup':
+        # the constness of members is not part of a tuple type (param_list_cmp with const_cmp = false)
+        return ('tup', tuple(('x', resolved(x)) for c, x in t[1]))
     return t
 
 
 def ty_eq(a, b):
     return resolved(a) == resolved(b)
+
+
+def resolved_members(t):
+    """a tuple type with its member types resolved but the members' constness kept as written"""
+    return ('tup', tuple((c, resolved(x)) for c, x in t[1]))
 
 
 # ------------------------------------------------------------------ printer
@@ -129,6 +142,22 @@ class Printer:
             self.dimc += 1
             self.w((name or "") + "[_d%d] : " % self.dimc)
             self.param(None, t[1], t[2])
+        elif t[0] == 'arrn':
+            ds = []
+            for _ in range(t[1]):
+                self.dimc += 1
+                ds.append("_d%d" % self.dimc)
+            self.w((name or "") + "[%s] : " % ", ".join(ds))
+            self.param(None, t[2], t[3])
+        elif t[0] == 'tup':
+            self.w((name + " : " if name else "") + "(")
+            for i, (c, x) in enumerate(t[1]):
+                if i:
+                    self.w(", ")
+                self.param(None, 'd' if c == 'x' else c, x)
+            self.w(")")
+        else:
+            raise ValueError(t)
 
     def param(self, name, c, t):
         if c == 'c':
@@ -146,6 +175,10 @@ class Printer:
             return "(fn (%s) %s %s)" % (" ".join("(%s %s)" % (c, self.sx_ty(x, ln)) for c, x in t[1]), t[2], self.sx_ty(t[3], ln))
         if t[0] == 'arr':
             return "(arr %s %s)" % (t[1], self.sx_ty(t[2], ln))
+        if t[0] == 'arrn':
+            return "(arrn %d %s %s)" % (t[1], t[2], self.sx_ty(t[3], ln))
+        if t[0] == 'tup':
+            return "(tup%s)" % "".join(" (%s %s)" % ('d' if c == 'x' else c, self.sx_ty(x, ln)) for c, x in t[1])
         raise ValueError(t)
 
     # ---- expressions; returns the s-expression
@@ -281,7 +314,7 @@ class Printer:
         if k == 'arr':
             e.ln = self.line
             self.w("[ ")
-            a = self.exprs(e.a[2])
+            a = self.rows(e.a[2])
             self.w(" ] : ")
             tl = self.line
             self.param(None, e.a[0], e.a[1])
@@ -293,6 +326,51 @@ class Printer:
             i = self.exprs(e.a[1])
             self.w("]")
             return "(deref %d %s %s)" % (e.ln, a, i)
+        if k == 'tuple':
+            # ( e1, e2 ) : ( T1, T2 )   line of '('
+            e.ln = self.line
+            self.w("(")
+            a = self.exprs(e.a[1])
+            if len(e.a[1]) == 1:
+                self.w(",")
+            self.w(") : (")
+            tl = self.line
+            ms = []
+            for i, (c, x) in enumerate(e.a[0]):
+                if i:
+                    self.w(", ")
+                self.param(None, c, x)
+                ms.append("(%s %s)" % (c, self.sx_ty(x, tl)))
+            self.w(")")
+            return "(tuple %d (%s)%s)" % (e.ln, " ".join(ms), (" " + a) if a else "")
+        if k == 'proj':
+            a = self.expr(e.a[0])
+            e.ln = self.line
+            self.w("[%d]" % e.a[1])
+            return "(proj %d %s %d %d)" % (e.ln, a, e.ln, e.a[1])
+        if k == 'range':
+            e.ln = self.line
+            self.w("[ ")
+            bs = self.bounds(e.a[0])
+            self.w(" ]")
+            return "(range %d %s)" % (e.ln, bs)
+        if k == 'slice':
+            a = self.expr(e.a[0])
+            e.ln = self.line
+            self.w("[")
+            bs = self.bounds(e.a[1])
+            self.w("]")
+            return "(slice %d %s %s)" % (e.ln, a, bs)
+        if k == 'pipe':
+            l = self.expr(e.a[0])
+            self.maybe_nl(0.2)
+            e.ln = self.line
+            self.w("|> ")
+            f = self.expr(e.a[1])
+            self.w("(")
+            a = self.exprs(e.a[2])
+            self.w(")")
+            return "(pipe %d %s %s%s)" % (e.ln, l, f, (" " + a) if a else "")
         if k == 'lc':
             e.ln = self.line
             self.w("[ ")
@@ -316,6 +394,34 @@ class Printer:
             self.param(None, e.a[1], e.a[2])
             return "(lc %d %s %s %s %s)" % (e.ln, x, e.a[1], self.sx_ty(e.a[2], tl), " ".join(qs))
         raise ValueError(k)
+
+    def rows(self, es):
+        """elements of an array literal / of one of its rows (a row, ARRAY_SUB, has no line of its own)"""
+        r = []
+        for i, x in enumerate(es):
+            if i:
+                self.w(",")
+                self.maybe_nl(0.15)
+            if x.k == 'sub':
+                x.ln = 0
+                self.w("[ ")
+                inner = self.rows(x.a[0])
+                self.w(" ]")
+                r.append("(sub%s)" % ((" " + inner) if inner else ""))
+            else:
+                r.append(self.expr(x))
+        return " ".join(r)
+
+    def bounds(self, bs):
+        """flat list f1, t1, f2, t2, ..."""
+        r = []
+        for i in range(0, len(bs), 2):
+            if i:
+                self.w(", ")
+            r.append(self.expr(bs[i]))
+            self.w(" .. ")
+            r.append(self.expr(bs[i + 1]))
+        return " ".join(r)
 
     def seq(self, e):
         brace_line = self.line
@@ -479,6 +585,14 @@ class Gen:
         self.cnt += 1
         return "%s%d" % (p, self.cnt)
 
+    def vname(self, p, t):
+        """names of tuple-typed variables and parameters start with 't' (the generic renaming mutator keeps away from them:
+        a tuple index must be a constant the compiler can fold, which the model does not do)"""
+        return self.fresh('t' if isinstance(t, tuple) and t[0] == 'tup' else p)
+
+    def mkparam(self, p, cw, t):
+        return P(self.vname(p, t), self.rng.weighted(cw), t)
+
     # ---- environment
     def snapshot(self):
         return [dict(s) for s in self.scopes]
@@ -521,8 +635,14 @@ class Gen:
             if t not in ('long', 'double'):
                 return t
 
+    def rand_tuple(self):
+        n = self.rng.range(1, 3)
+        return ('tup', tuple(('d', self.rand_fn_safe()) for _ in range(n)))
+
     def rand_type(self, depth=0):
         r = self.rng.below(100)
+        if depth < 2 and r >= 90:
+            return self.rand_tuple()
         if depth < 2 and r < 12:
             n = self.rng.below(3)
             ps = tuple((self.rng.weighted([('d', 6), ('v', 1), ('c', 1)]), self.rand_fn_inner(depth + 1)) for _ in range(n))
@@ -566,6 +686,7 @@ class Gen:
             opts.append(('call', 4))
             opts.append(('attr', 2))
             opts.append(('deref', 2))
+            opts.append(('proj', 2))
             opts.append(('block', 1))
             if self.enums:
                 opts.append(('match', 2))
@@ -610,7 +731,30 @@ class Gen:
             return N('arr', t[1], t[2], els, ty=t, cst=('var' if norm_v(t[1]) == 'c' else 'temp'))
         if t[0] == 'fn':
             return self.funclit(t, d)
+        if t[0] == 'tup':
+            els = [self.expr(x, max(d - 1, 0)) for c, x in t[1]]
+            self.stat('mk_tuple')
+            return N('tuple', [('d', x) for c, x in t[1]], els, ty=t)
+        if t[0] == 'arrn':
+            self.stat('mk_arrn')
+            return N('arr', t[2], t[3], self.rect(t[1], t[3], d), ty=t, cst=('var' if norm_v(t[2]) == 'c' else 'temp'))
+        if t[0] == 'rng':
+            self.stat('mk_range')
+            return N('range', [self.small_int(d) for _ in range(2 * t[1])], ty=t)
         raise ValueError(t)
+
+    def small_int(self, d):
+        if d > 0 and self.rng.chance(0.3):
+            return self.expr('int', 0)
+        return N('i', str(self.rng.below(3)), ty='int')
+
+    def rect(self, dims, et, d, shape=None):
+        """rows of a rectangular literal of `dims` dimensions (innermost rows hold expressions)"""
+        if shape is None:
+            shape = [self.rng.range(1, 2) for _ in range(dims)]
+        if dims == 1:
+            return [self.expr(et, 0) for _ in range(shape[0])]
+        return [N('sub', self.rect(dims - 1, et, d, shape[1:])) for _ in range(shape[0])]
 
     def listcomp(self, t, d, vs):
         rng = self.rng
@@ -630,7 +774,7 @@ class Gen:
         return N('lc', el, t[1], t[2], quals, ty=t)
 
     def funclit(self, t, d):
-        ps = [P(self.fresh('a'), c, x) for c, x in t[1]]
+        ps = [P(self.vname('a', x), c, x) for c, x in t[1]]
         f = self.func(None, ps, t[2], t[3], max(d - 1, 0), 'closure')
         return N('fun', f, ty=t)
 
@@ -708,7 +852,48 @@ class Gen:
         if not fs:
             return None
         x, v = self.rng.choice(fs)
+        if len(resolved(v.ty)[1]) > 0 and self.rng.chance(0.3):
+            e = self.mkpipe(N('id', x, ty=v.ty, cst=v.cst), v.ty, d)
+            if e is not None:
+                return e
         return self.mkcall(N('id', x, ty=v.ty, cst=v.cst), v.ty, d)
+
+    def e_proj(self, t, d):
+        cands = []
+        for x, v in self.visible():
+            if isinstance(v.ty, tuple) and v.ty[0] == 'tup':
+                for i, (c, m) in enumerate(v.ty[1]):
+                    if ty_eq(m, t):
+                        cands.append((x, v, i))
+        if not cands:
+            return None
+        x, v, i = self.rng.choice(cands)
+        # constness: CONST when the tuple is, else the member's; reported CONST (a value only read)
+        return N('proj', N('id', x, ty=v.ty, cst=v.cst), i, ty=t, cst='const')
+
+    def mkpipe(self, fexpr, ft, d):
+        """`a0 |> f(a1, …)` or `(a0, …, ak) : (T0, …, Tk) |> f(ak+1, …)`"""
+        ft = resolved(ft)
+        ps = ft[1]
+        simple = lambda t: (isinstance(t, str) and t not in ('long', 'double')) or (isinstance(t, tuple) and t[0] in ('rec', 'enum'))
+        k = 0
+        while k < len(ps) and simple(ps[k][1]):
+            k += 1
+        if k and self.rng.chance(0.5):
+            k = self.rng.range(1, k)
+            left = N('tuple', [('d', pt) for pc, pt in ps[:k]], [self.expr(pt, max(d - 1, 0)) for pc, pt in ps[:k]],
+                     ty=('tup', tuple(('d', pt) for pc, pt in ps[:k])))
+            # C: the tuple form compares everything with const_cmp = false
+            args = [self.expr(pt, max(d - 1, 0)) for pc, pt in ps[k:]]
+            self.stat('pipe_tuple')
+        else:
+            if isinstance(ps[0][1], tuple) and ps[0][1][0] == 'tup':
+                return None      # a tuple on the left is unpacked
+            left = atom(self.expr(ps[0][1], max(d - 1, 0), nonconst=(ps[0][0] == 'v')))
+            args = [self.expr(pt, max(d - 1, 0), nonconst=(pc == 'v')) for pc, pt in ps[1:]]
+            self.stat('pipe_scalar')
+        e = N('pipe', left, atom(fexpr), args, ty=ft[3], cst=cst_of_p(ft[2]))
+        return N('sup', e, ty=e.ty, cst=e.cst)
 
     def mkcall(self, fexpr, ft, d):
         ft = resolved(ft)
@@ -733,6 +918,12 @@ class Gen:
         if t == 'char' and self.rng.chance(0.3):
             return N('deref', atom(self.expr('string', d - 1)), [self.expr('int', d - 1)], ty='char', cst='const')
         vs = self.vars_of(lambda v: isinstance(v.ty, tuple) and v.ty[0] == 'arr' and ty_eq(v.ty[2], t))
+        ms = self.vars_of(lambda v: isinstance(v.ty, tuple) and v.ty[0] == 'arrn' and ty_eq(v.ty[3], t))
+        if ms and (not vs or self.rng.chance(0.5)):
+            x, v = self.rng.choice(ms)
+            c = 'const' if v.cst == 'const' else cst_of_p(norm_v(v.ty[2]))
+            self.stat('deref_nd')
+            return N('deref', N('id', x, ty=v.ty, cst=v.cst), [self.expr('int', d - 1) for _ in range(v.ty[1])], ty=t, cst=c)
         if not vs:
             return None
         x, v = self.rng.choice(vs)
@@ -772,14 +963,41 @@ class Gen:
             b = self.block('int', d - 1, 'while')
             return N('while', self.expr('bool', d - 1), b, ty='int', cst='const')
         vs = self.vars_of(lambda v: isinstance(v.ty, tuple) and v.ty[0] == 'arr')
-        if not vs:
-            return None
-        x, v = self.rng.choice(vs)
+        rs = self.vars_of(lambda v: isinstance(v.ty, tuple) and ((v.ty[0] == 'rng' and v.ty[1] == 1) or (v.ty[0] == 'slc' and v.ty[1] == 1)))
+        r = self.rng.below(10)
         it = self.fresh('it')
-        self.scopes.append({it: V(v.ty[2], v.cst, 'forin')})
+        if r < 3 or (not vs and not rs):
+            # a range: its elements are `let int`
+            coll = rs and self.rng.chance(0.4) and [xv for xv in rs if xv[1].ty[0] == 'rng']
+            if coll:
+                x, v = self.rng.choice(coll)
+                src = N('id', x, ty=v.ty, cst=v.cst)
+            else:
+                src = self.e_make(('rng', 1), d - 1)
+            iv = V('int', 'const', 'forin')
+            self.stat('forin_range')
+        elif r < 5 and vs:
+            # a slice of an array: the iterator has the constness of the ELEMENT type (the array's own is lost: known finding)
+            x, v = self.rng.choice(vs)
+            src = N('slice', N('id', x, ty=v.ty, cst=v.cst), [self.small_int(0), self.small_int(0)], ty=('slc', 1, v.ty[1], v.ty[2]))
+            iv = V(v.ty[2], cst_of_p(norm_v(v.ty[1])), 'forin_slice')
+            self.stat('forin_slice')
+        elif r < 6 and [xv for xv in rs if xv[1].ty[0] == 'slc']:
+            x, v = self.rng.choice([xv for xv in rs if xv[1].ty[0] == 'slc'])
+            src = N('id', x, ty=v.ty, cst=v.cst)
+            iv = V(v.ty[3], cst_of_p(norm_v(v.ty[2])), 'forin_slice')
+            self.stat('forin_slice')
+        elif vs:
+            x, v = self.rng.choice(vs)
+            src = N('id', x, ty=v.ty, cst=v.cst)
+            iv = V(v.ty[2], v.cst, 'forin')
+        else:
+            return None
+        self.scopes.append({it: iv})
         b = self.block(self.rand_scalar(), d - 1, 'forin')
         self.scopes.pop()
-        return N('forin', it, N('id', x, ty=v.ty, cst=v.cst), b, ty='int')
+        self.stat('forin')
+        return N('forin', it, src, b, ty='int')
 
     def lvalue(self, t):
         """an assignable expression of type t (constness VAR), or None"""
@@ -842,8 +1060,10 @@ class Gen:
     def stmt(self, d, first=False):
         rng = self.rng
         k = rng.weighted([('let', 5), ('var', 4), ('expr', 3), ('ass', 3), ('func', 2 if d > 0 else 0), ('loop', 2 if d > 0 else 0),
-                          ('arr', 2 if d > 0 else 0)])
+                          ('arr', 2 if d > 0 else 0), ('shape', 3)])
         self.stat('s_' + k)
+        if k == 'shape':
+            return self.shape_stmt(d)
         if k in ('let', 'var'):
             # sometimes shadow a visible name (an inner table shadows an outer one).  Only as the first
             # item of a block and with a closure-free initialiser: a function (declared earlier in the
@@ -862,7 +1082,7 @@ class Gen:
             else:
                 t = self.rand_type()
                 e = self.expr(t, d, nonconst=(k == 'var'))
-                x = self.fresh('v')
+                x = self.vname('v', t)
             self.scopes[-1][x] = V(t, 'var' if k == 'var' else 'const', k)
             return N(k, x, e)
         if k == 'ass':
@@ -872,7 +1092,7 @@ class Gen:
                 return e
             k = 'expr'
         if k == 'func':
-            ps = [P(self.fresh('p'), rng.weighted([('d', 6), ('v', 2), ('c', 1)]), self.rand_type(1)) for _ in range(rng.below(3))]
+            ps = [self.mkparam('p', [('d', 6), ('v', 2), ('c', 1)], self.rand_type(1)) for _ in range(rng.below(3))]
             name = self.fresh('g')
             rc, rty = rng.weighted([('d', 6), ('v', 1)]), self.rand_type(1)
             ft = resolved(('fn', tuple((p.cst, p.ty) for p in ps), rc, rty))
@@ -897,6 +1117,43 @@ class Gen:
             if e is not None:
                 return e
         return self.expr(self.rand_simple(), d)
+
+    def shape_stmt(self, d):
+        """a binding of a tuple, a range, a slice or an array of several dimensions (D11)"""
+        rng = self.rng
+        kk = rng.choice(['let', 'var'])
+        c = rng.below(10)
+        vs = self.vars_of(lambda v: isinstance(v.ty, tuple) and v.ty[0] == 'arr')
+        if c < 3:
+            t = self.rand_tuple()
+            e = self.expr(resolved_members(t), d, nonconst=(kk == 'var'))
+            x = self.fresh('t')
+            t = resolved_members(t)
+        elif c < 5:
+            n = rng.weighted([(1, 4), (2, 1)])
+            t = ('rng', n)
+            e = self.e_make(t, d)
+            if rng.chance(0.3):
+                # both branches of a conditional are ranges of the same dimension (b996419)
+                e = N('cond', atom(self.expr('bool', 0)), e, self.e_make(t, 0), ty=t, style='q')
+                self.stat('cond_range')
+            x = self.fresh('r')
+        elif c < 7 and vs:
+            y, v = rng.choice(vs)
+            t = ('slc', 1, v.ty[1], v.ty[2])
+            e = N('slice', N('id', y, ty=v.ty, cst=v.cst), [self.small_int(0), self.small_int(0)], ty=t)
+            self.stat('mk_slice')
+            x = self.fresh('s')
+        else:
+            n = rng.weighted([(2, 4), (3, 1)])
+            t = ('arrn', n, rng.weighted([('d', 5), ('c', 1)]), self.rand_fn_safe())
+            e = self.e_make(resolved(t), d)
+            t = resolved(t)
+            if e.cst == 'const':
+                kk = 'let'
+            x = self.fresh('m')
+        self.scopes[-1][x] = V(t, 'var' if kk == 'var' else 'const', kk)
+        return N(kk, x, e)
 
     def func(self, name, ps, rc, rty, d, label, excs=None):
         saved = self.curfn
@@ -955,7 +1212,7 @@ class Gen:
         nf = rng.range(1, 1 + int(3 * self.size))
         for i in range(nf):
             name = "f%d" % i
-            ps = [P(self.fresh('p'), rng.weighted([('d', 6), ('v', 2), ('c', 1)]), self.rand_type()) for _ in range(rng.below(4))]
+            ps = [self.mkparam('p', [('d', 6), ('v', 2), ('c', 1)], self.rand_type()) for _ in range(rng.below(4))]
             rc, rty = rng.weighted([('d', 6), ('v', 1)]), self.rand_type()
             protos.append((name, ps, rc, rty))
         if rng.chance(0.35):
@@ -1011,6 +1268,13 @@ def incompatible_arg_types(pt, gen):
         for t in ('int', 'string', 'bool'):
             if not ty_eq(t, pt[2]):
                 out.append((('arr', 'd', t), 'silent'))
+    elif pt[0] == 'tup':
+        out += [('int', 'kind'), ('string', 'kind')]
+        ms = pt[1]
+        # one member more, one member of another type
+        out.append((('tup', ms + (('d', 'int'),)), 'silent'))
+        other = 'string' if not ty_eq(ms[0][1], 'string') else 'int'
+        out.append((('tup', (('d', other),) + ms[1:]), 'silent'))
     elif pt[0] == 'fn':
         out += [('int', 'kind'), ('string', 'kind')]
         # different arity
@@ -1030,7 +1294,10 @@ class Mutant:
 
 
 RULES = ['assign_let', 'assign_param', 'call_arity', 'call_kind', 'undef_name', 'undef_attr', 'op_incompat',
-         'cond_nonbool', 'ret_kind', 'match_missing', 'unknown_exc']
+         'cond_nonbool', 'ret_kind', 'match_missing', 'unknown_exc',
+         # D11
+         'branch_tuple', 'branch_range', 'branch_elem', 'tuple_arity', 'tuple_index', 'array_ragged', 'forin_iter_assign',
+         'pipe_arity', 'pipe_tuple_arity', 'match_after_else', 'elem_long_double']
 
 
 class Mutator:
@@ -1388,6 +1655,311 @@ class Mutator:
         site.seq.a[0].insert(site.idx, bad)
         return Mutant('match_empty', self.p, bad, 'matchMissing', site.path)
 
+    # ------------------------------------------------------------------ D11
+    def _site(self):
+        site = self.pick_site()
+        if site is not None:
+            self.at(site)
+        return site
+
+    def _branches(self, a, b, t, rule, site, note):
+        g, rng = self.g, self.rng
+        r = rng.below(3)
+        if r == 2 and g.enums:
+            # arms of a match
+            en = rng.choice(sorted(g.enums))
+            items = list(g.enums[en])
+            s = g.expr(('enum', en), 0)
+            if s.k not in ('id', 'call', 'sup'):
+                s = N('sup', s, ty=s.ty)
+            arms = [a] + [b] * (len(items) - 1)
+            bad = N('match', s, [N('g', en, it, atom(x)) for it, x in zip(items, arms)], ty=t)
+        elif r == 1:
+            bad = N('cond', g.expr('bool', 1), N('seq', [a], ty=t), N('seq', [b], ty=t), ty=t, style='if')
+        else:
+            bad = N('cond', atom(g.expr('bool', 1)), atom(a), atom(b), ty=t, style='q')
+        site.seq.a[0].insert(site.idx, N('let', g.fresh('z'), bad))
+        return Mutant(rule, self.p, bad, {'branch_tuple': 'condBranches', 'branch_range': 'branchRanges'}.get(rule, 'branchArrays'),
+                      site.path, note)
+
+    def branch_tuple(self):
+        """branches that are tuples of different shape or with a member of another type (b235435)"""
+        site = self._site()
+        if site is None:
+            return None
+        g, rng = self.g, self.rng
+        t1 = g.rand_tuple()
+        ms = t1[1]
+        if rng.chance(0.5):
+            t2 = ('tup', ms + (('d', g.rand_fn_safe()),)) if rng.chance(0.5) or len(ms) == 1 else ('tup', ms[:-1])
+            note = "shape"
+        else:
+            i = rng.below(len(ms))
+            others = [x for x in ['int', 'string', 'bool', 'float', 'char'] if not ty_eq(x, ms[i][1])]
+            t2 = ('tup', ms[:i] + (('d', rng.choice(others)),) + ms[i + 1:])
+            note = "member %d" % i
+        a, b = g.e_make(resolved(t1), 1), g.e_make(resolved(t2), 1)
+        if rng.chance(0.5):
+            a, b = b, a
+        return self._branches(a, b, t1, 'branch_tuple', site, note)
+
+    def branch_range(self):
+        """ranges of different dimension in the branches (b996419)"""
+        site = self._site()
+        if site is None:
+            return None
+        a, b = self.g.e_make(('rng', 1), 1), self.g.e_make(('rng', 2), 1)
+        if self.rng.chance(0.5):
+            a, b = b, a
+        return self._branches(a, b, ('rng', 1), 'branch_range', site, "dims")
+
+    def branch_elem(self):
+        """arrays of different element type / dimension in the branches"""
+        site = self._site()
+        if site is None:
+            return None
+        g, rng = self.g, self.rng
+        e1, e2 = rng.choice([('int', 'string'), ('int', 'float'), ('bool', 'int'), ('long', 'double'), ('char', 'string'), ('float', 'double')])
+        if rng.chance(0.3):
+            a, b = g.e_make(('arr', 'd', e1), 0), g.e_make(('arrn', 2, 'v', e1), 0)
+            note = "dims"
+        else:
+            a, b = g.e_make(('arr', 'd', e1), 0), g.e_make(('arr', 'd', e2), 0)
+            note = "%s/%s" % (e1, e2)
+        if rng.chance(0.5):
+            a, b = b, a
+        return self._branches(a, b, ('arr', 'd', e1), 'branch_elem', site, note)
+
+    def tuple_arity(self):
+        site = self._site()
+        if site is None:
+            return None
+        g, rng = self.g, self.rng
+        t = g.rand_tuple()
+        bad = g.e_make(resolved(t), 1)
+        if len(bad.a[1]) > 1 and rng.chance(0.5):
+            bad.a[1].pop(rng.below(len(bad.a[1])))
+        else:
+            bad.a[1].append(g.expr(g.rand_scalar(), 0))
+        self.insert(site, bad)
+        return Mutant('tuple_arity', self.p, bad, 'tupleForm', site.path)
+
+    def tuple_index(self):
+        istup = lambda v: isinstance(v.ty, tuple) and v.ty[0] == 'tup'
+        site = self.pick_site()
+        if site is None:
+            return None
+        vs = self.visible_at(site, istup)
+        if vs and self.rng.chance(0.6):
+            x, v = self.rng.choice(vs)
+            src, n = N('id', x, ty=v.ty, cst=v.cst), len(v.ty[1])
+        else:
+            t = self.g.rand_tuple()
+            src, n = N('sup', self.g.e_make(resolved(t), 1), ty=t), len(t[1])
+        bad = N('proj', src, n + self.rng.below(3), ty='int')
+        self.insert(site, bad)
+        return Mutant('tuple_index', self.p, bad, 'tupleIndex', site.path)
+
+    def array_ragged(self):
+        """a literal whose rows have not all the same length, an empty row included (tcheckarr.c; C01-6 / C12-7)"""
+        site = self._site()
+        if site is None:
+            return None
+        g, rng = self.g, self.rng
+        et = g.rand_fn_safe()
+        k = rng.range(2, 3)
+        n = rng.range(1, 3)
+        lens = [n] * k
+        i = rng.below(k)
+        lens[i] = rng.choice([x for x in (0, 0, n - 1, n + 1) if x != n and x >= 0])
+        rows = [N('sub', [g.expr(et, 0) for _ in range(m)]) for m in lens]
+        note = "rows %s" % lens
+        if rng.chance(0.3):
+            # one level deeper: the ragged plane next to a rectangular one
+            good = N('sub', [N('sub', [g.expr(et, 0) for _ in range(n)]) for _ in range(k)])
+            rows = [good, N('sub', rows)] if rng.chance(0.5) else [N('sub', rows), good]
+            note += " in a plane"
+        bad = N('arr', 'd', et, rows, ty=('arrn', 2, 'd', et))
+        self.insert(site, bad)
+        marker = N('sub', [])      # a row has no line: the first diagnostic is at line 0
+        marker.ln = 0
+        return Mutant('array_ragged', self.p, marker, 'arrayShape', site.path, note)
+
+    def forin_iter_assign(self):
+        """assignment to the iterator of a for-in over a CONST array or over a range (tcforin.c; C06-6 / C06-9)"""
+        g, rng = self.g, self.rng
+        okarr = lambda v: isinstance(v.ty, tuple) and v.ty[0] == 'arr' and v.cst == 'const' and \
+            (isinstance(v.ty[2], str) or v.ty[2][0] in ('rec', 'enum'))
+        site = self.pick_site(lambda s: any(okarr(v) for sc in s.env for v in sc.values())) if rng.chance(0.8) else None
+        it = g.fresh('it')
+        if site is not None:
+            vs = self.visible_at(site, okarr)
+            if not vs:
+                return None
+            x, v = rng.choice(vs)
+            src, et, note = N('id', x, ty=v.ty, cst=v.cst), v.ty[2], "array " + x
+        else:
+            site = self._site()
+            if site is None:
+                return None
+            src, et, note = g.e_make(('rng', 1), 0), 'int', "range"
+        g.scopes.append({it: V(et, 'const', 'forin')})
+        bad = N('ass', N('id', it, ty=et, cst='const'), g.expr(et, 0), ty=et)
+        body = N('seq', [bad, lit('int', rng)], ty='int') if rng.chance(0.5) else bad
+        g.scopes.pop()
+        site.seq.a[0].insert(site.idx, N('forin', it, src, body, ty='int'))
+        return Mutant('forin_iter_assign', self.p, bad, 'assignConst', site.path + ['forin'], note)
+
+    def _pipe_target(self, site, pred):
+        fs = [(x, v) for x, v in self._callable(site, True) if pred(resolved(v.ty))]
+        return self.rng.choice(fs) if fs else None
+
+    def pipe_arity(self):
+        """`a |> f(args)` with too few or with SURPLUS explicit arguments (param_list_expr_expr_list_cmp; C06-5)"""
+        site = self.pick_site()
+        if site is None:
+            return None
+        nt = lambda t: not (isinstance(t, tuple) and t[0] == 'tup')
+        xv = self._pipe_target(site, lambda ft: nt(ft[1][0][1]))
+        if xv is None:
+            return None
+        x, v = xv
+        g, rng = self.g, self.rng
+        ft = resolved(v.ty)
+        left = atom(g.expr(ft[1][0][1], 1, nonconst=(ft[1][0][0] == 'v')))
+        args = [g.expr(pt, 1, nonconst=(pc == 'v')) for pc, pt in ft[1][1:]]
+        if args and rng.chance(0.35):
+            args.pop()
+            note = "too few"
+        else:
+            for _ in range(rng.range(1, 2)):
+                args.append(g.expr(g.rand_scalar(), 0))
+            note = "surplus"
+        bad = N('pipe', left, N('id', x, ty=v.ty), args, ty=ft[3])
+        self.insert(site, N('sup', bad, ty=ft[3]))
+        return Mutant('pipe_arity', self.p, bad, 'callMismatch', site.path, note)
+
+    def pipe_tuple_arity(self):
+        site = self.pick_site()
+        if site is None:
+            return None
+        simple = lambda t: (isinstance(t, str) and t not in ('long', 'double')) or (isinstance(t, tuple) and t[0] in ('rec', 'enum'))
+        xv = self._pipe_target(site, lambda ft: all(simple(pt) for pc, pt in ft[1]))
+        if xv is None:
+            return None
+        x, v = xv
+        g, rng = self.g, self.rng
+        ft = resolved(v.ty)
+        ms = [pt for pc, pt in ft[1]]
+        if len(ms) > 1 and rng.chance(0.5):
+            ms = ms[:-1]
+            note = "a member short"
+        else:
+            ms = ms + [g.rand_fn_safe()]
+            note = "a member more"
+        left = N('tuple', [('d', t) for t in ms], [g.expr(t, 0) for t in ms], ty=('tup', tuple(('d', t) for t in ms)))
+        bad = N('pipe', left, N('id', x, ty=v.ty), [], ty=ft[3])
+        self.insert(site, N('sup', bad, ty=ft[3]))
+        return Mutant('pipe_tuple_arity', self.p, bad, 'callMismatch', site.path, note)
+
+    def match_after_else(self):
+        """a match without `else` that omits enumerators, checked AFTER a match with `else` that names exactly those
+        (the `mark` flag lives in the enum declaration: tcmatch.c; C06-4 / C01-7)"""
+        g, rng = self.g, self.rng
+        if not g.enums:
+            return None
+        site = self._site()
+        if site is None:
+            return None
+        en = rng.choice(sorted(g.enums))
+        items = list(g.enums[en])
+        keep = rng.below(len(items))
+        scrut = lambda: (lambda s: s if s.k in ('id', 'call', 'sup') else N('sup', s, ty=s.ty))(g.expr(('enum', en), 0))
+        t = g.rand_scalar()
+        first = N('match', scrut(), [N('g', en, it, atom(g.expr(t, 0))) for i, it in enumerate(items) if i != keep] +
+                  [N('else', atom(g.expr(t, 0)))], ty=t)
+        t2 = g.rand_scalar()
+        bad = N('match', scrut(), [N('g', en, items[keep], atom(g.expr(t2, 0)))], ty=t2)
+        how = rng.below(3)
+        if how == 0:
+            # the earlier match sits in the arm of the later one (arms are checked before exhaustiveness)
+            bad.a[1][0].a[2] = N('seq', [first, bad.a[1][0].a[2]], ty=t2)
+            site.seq.a[0].insert(site.idx, bad)
+        elif how == 1:
+            site.seq.a[0].insert(site.idx, bad)
+            site.seq.a[0].insert(site.idx, N('let', g.fresh('z'), first))
+        else:
+            site.seq.a[0].insert(site.idx, bad)
+            site.seq.a[0].insert(site.idx, first)
+        return Mutant('match_after_else', self.p, bad, 'matchMissing', site.path, "keeps %s" % items[keep])
+
+    def elem_long_double(self):
+        """long where double is declared (or the reverse) INSIDE an array / tuple / function type: element types are compared
+        exactly (param_cmp; C06-7)"""
+        site = self._site()
+        if site is None:
+            return None
+        g, rng = self.g, self.rng
+        a, b = rng.choice([('long', 'double'), ('double', 'long')])
+        form = rng.below(3)
+        h = g.fresh('h')
+        if form == 0:
+            pty, aty = ('arr', 'd', a), ('arr', 'd', b)
+        elif form == 1:
+            pty, aty = ('tup', (('d', a), ('d', 'int'))), ('tup', (('d', b), ('d', 'int')))
+        else:
+            pty, aty = ('fn', (('d', a),), 'd', a), ('fn', (('d', b),), 'd', b)
+        f = F(h, [P(g.vname('p', pty), 'd', pty)], 'd', 'int', N('seq', [lit('int', rng)], body=True))
+        arg = g.e_make(resolved(aty), 0)
+        bad = N('call', N('id', h), [arg], ty='int')
+        site.seq.a[0].insert(site.idx, bad)
+        site.seq.a[0].insert(site.idx, f)
+        return Mutant('elem_long_double', self.p, bad, 'callMismatch', site.path, "%s as %s, form %d" % (b, a, form))
+
+    # -- known acceptances of the tree (corpus/tc_known), as mutators: KNOWN-FINDING while accepted
+    def slice_assign_let(self):
+        """an element of a `let` array assigned through a slice of it"""
+        ok = lambda v: isinstance(v.ty, tuple) and v.ty[0] == 'arr' and v.cst == 'const' and v.kind in ('let', 'param') and \
+            norm_v(v.ty[1]) == 'v' and isinstance(v.ty[2], str)
+        site = self.pick_site(lambda s: any(ok(v) for sc in s.env for v in sc.values()))
+        if site is None:
+            return None
+        vs = self.visible_at(site, ok)
+        if not vs:
+            return None
+        x, v = self.rng.choice(vs)
+        z = lambda: N('i', '0', ty='int')
+        sl = N('slice', N('id', x, ty=v.ty, cst=v.cst), [z(), z()], ty=('slc', 1, v.ty[1], v.ty[2]))
+        if self.rng.chance(0.5):
+            bad = N('ass', N('proj', sl, 0, ty=v.ty[2]), self.g.expr(v.ty[2], 0), ty=v.ty[2])
+            site.seq.a[0].insert(site.idx, bad)
+        else:
+            it = self.g.fresh('it')
+            bad = N('ass', N('id', it, ty=v.ty[2]), self.g.expr(v.ty[2], 0), ty=v.ty[2])
+            site.seq.a[0].insert(site.idx, N('forin', it, sl, bad, ty='int'))
+        return Mutant('slice_assign_let', self.p, bad, 'assignConst', site.path, x)
+
+    def pipe_tuple_const_to_var(self):
+        """members of a `let` tuple piped into `var` parameters"""
+        site = self.pick_site()
+        if site is None:
+            return None
+        simple = lambda t: (isinstance(t, str) and t not in ('long', 'double')) or (isinstance(t, tuple) and t[0] in ('rec', 'enum'))
+        xv = self._pipe_target(site, lambda ft: all(simple(pt) for pc, pt in ft[1]) and any(pc == 'v' for pc, pt in ft[1]))
+        if xv is None:
+            return None
+        x, v = xv
+        g = self.g
+        ft = resolved(v.ty)
+        ms = [pt for pc, pt in ft[1]]
+        t = g.fresh('t')
+        tup = N('tuple', [('d', m) for m in ms], [g.expr(m, 0) for m in ms], ty=('tup', tuple(('d', m) for m in ms)))
+        left = N('id', t, ty=tup.ty, cst='const')
+        bad = N('pipe', left, N('id', x, ty=v.ty), [], ty=ft[3])
+        site.seq.a[0].insert(site.idx, N('sup', bad, ty=ft[3]))
+        site.seq.a[0].insert(site.idx, N('let', t, tup))
+        return Mutant('pipe_tuple_const_to_var', self.p, left, 'constToVarParam', site.path, x)
+
     # -- catch
     def unknown_exc(self):
         g, rng = self.g, self.rng
@@ -1415,7 +1987,7 @@ class Mutator:
 # (branch kinds, array elements, indices, qualifiers, redefinitions, constness of bindings, …).
 
 EXPR_KINDS = {'b', 'i', 'l', 'f', 'd', 'c', 's', 'id', 'ev', 'un', 'bin', 'sup', 'cond', 'ass', 'while', 'forin', 'call',
-              'fun', 'seq', 'attr', 'match', 'arr', 'deref', 'lc'}
+              'fun', 'seq', 'attr', 'match', 'arr', 'deref', 'lc', 'tuple', 'proj', 'range', 'slice', 'pipe'}
 
 
 def expr_slots(prog):
@@ -1526,7 +2098,10 @@ def generic_mutate(kind, gen, prog, rng):
         slots = [(c, k) for c, k in expr_slots(prog) if c[k].k == 'id']
         if not slots:
             return None
-        names = sorted(set(c[k].a[0] for c, k in slots))
+        # never rename TO a tuple-typed name (they start with 't'): `x[i + 1]` on a tuple needs the constant folder
+        names = sorted(set(c[k].a[0] for c, k in slots if not c[k].a[0].startswith('t')))
+        if not names:
+            return None
         c, k = rng.choice(slots)
         new = rng.choice(names)
         if new == c[k].a[0]:
